@@ -280,11 +280,18 @@ func (c *FnCtx) localLookup(h *ssa.BasicBlock, upto int, phiVal func(*ssa.Phi) T
 			depth, idx int
 			tv         TV
 		}
-		var best *cand
+		var best, bestMem *cand
 		consider := func(b *ssa.BasicBlock, idx int, tv TV) {
 			cd := &cand{c.domDepth(b), idx, tv}
 			if best == nil || cd.depth > best.depth || (cd.depth == best.depth && cd.idx > best.idx) {
 				best = cd
+			}
+			// a variable that lives in memory (captured by a closure, address taken): its current value is
+			// what the cell holds now, never a value some earlier assignment mentioned
+			if tv.Loc != nil && tv.Loc.Kind == "cell" {
+				if bestMem == nil || cd.depth > bestMem.depth || (cd.depth == bestMem.depth && cd.idx > bestMem.idx) {
+					bestMem = cd
+				}
 			}
 		}
 		for _, b := range c.order {
@@ -300,6 +307,21 @@ func (c *FnCtx) localLookup(h *ssa.BasicBlock, upto int, phiVal func(*ssa.Phi) T
 						} else {
 							consider(b, idx, TV{T: c.vals[x], Ty: x.Type()})
 						}
+					}
+				case *ssa.Alloc:
+					// a source variable kept in memory (captured by a closure): go/ssa names the cell after it
+					if x.Comment != name || !x.Heap || (b == h && upto >= 0 && idx >= upto) {
+						continue
+					}
+					if frozenCellStore(x) != nil {
+						continue // assigned once: the value the assignment mentioned is the value
+					}
+					el := x.Type().Underlying().(*types.Pointer).Elem()
+					if _, isArr := el.Underlying().(*types.Array); isArr || isStruct(el) {
+						continue
+					}
+					if t, ok := c.vals[x]; ok {
+						consider(b, idx, TV{Ty: el, Loc: &Loc{Kind: "cell", Comp: c.cellComp(el), Ref: t, T: el, Root: el}})
 					}
 				case *ssa.DebugRef:
 					if b == h && (upto < 0 || idx >= upto) {
@@ -333,6 +355,9 @@ func (c *FnCtx) localLookup(h *ssa.BasicBlock, upto int, phiVal func(*ssa.Phi) T
 					}
 				}
 			}
+		}
+		if bestMem != nil {
+			return bestMem.tv, true
 		}
 		if best != nil {
 			return best.tv, true
